@@ -104,7 +104,14 @@ func (s *Server) serveUnary(ctx context.Context, w io.Writer, req *Request, info
 	resultBatch, err := serializeResult(info.ResultSchema, resultVal.Interface())
 	if err != nil {
 		handlerErr = &RpcError{Type: "SerializationError", Message: fmt.Sprintf("result serialization: %v", err)}
-		s.logIPCWriteErr("error-response", req.Method, writeErrorResponse(w, info.ResultSchema, handlerErr, s.serverID, req.RequestID, s.debugErrors))
+		// Like a handler failure: the handler's logs, then the one exception
+		// batch, in a single IPC stream.
+		ipcW := ipc.NewWriter(w, ipc.WithSchema(info.ResultSchema))
+		for _, logMsg := range logs {
+			s.logIPCWriteErr("log-batch", req.Method, writeLogBatch(ipcW, info.ResultSchema, logMsg, s.serverID, req.RequestID))
+		}
+		s.logIPCWriteErr("error-batch", req.Method, writeErrorBatch(ipcW, info.ResultSchema, handlerErr, s.serverID, req.RequestID, s.debugErrors))
+		s.logIPCWriteErr("close", req.Method, ipcW.Close())
 		return handlerErr, nil
 	}
 	// Use a closure so the final owner is released. A deferred method call
